@@ -2,7 +2,7 @@
 path, the canonical bounded-ring schema (access/accounting pairing).  Partial: the behaviour over
 all push/pop sequences follows from the schema by a textbook argument that is NOT mechanised here."""
 from rl import (loc_endswith, path_cond, trace_summary, where, const_of, fmt_val, fmt_loc, fields_of)
-from common import scan_field_writes, contains, eq_fact, same_pred, cmp_fact
+from common import scan_field_writes, contains, eq_fact, same_pred, cmp_fact, says_pred
 from lib import CheckerError
 
 ARRAY = 'buffer::ring_buffer::ArrayBuf'
@@ -238,7 +238,7 @@ def run(C, R):
             fn = fn_of(ARRAY, nm)
             for path in E.run(fn['path']):
                 eff = [e for e in path.events if e['k'] in ('write', 'qop')]
-                if (path.ret == want or same_pred(path.ret, want)) and not eff:
+                if (path.ret == want or (want[0] == 'bin' and says_pred(E, path, want))) and not eff:
                     R.ok('C19.R5', '%s = %s' % (fn['path'], fmt_val(want)))
                 else:
                     R.fail('C19.R5', [fn['path'], 'report'], '%s returns %s (expected %s)' % (
@@ -248,7 +248,7 @@ def run(C, R):
             raise CheckerError('anchor=RingBuf::is_empty default method')
         for path in E.run(ie[0]['path']):
             calls = [e for e in path.events if e['k'] == 'call' and e['name'] == 'len']
-            if calls and same_pred(path.ret, ('bin', 'Eq', calls[0]['ret'], ('const', 0))):
+            if calls and says_pred(E, path, ('bin', 'Eq', calls[0]['ret'], ('const', 0))):
                 R.ok('C19.R5', 'RingBuf::is_empty = (len() == 0)')
             else:
                 R.fail('C19.R5', [ie[0]['path'], 'report'], 'is_empty is not len() == 0', None)
@@ -315,7 +315,7 @@ def heap_variants(R, E, F, rule, cfg):
         fn = fn_of(adt, 'can_push')
         for path in E.run(fn['path']):
             c = [e for e in path.events if e['k'] == 'call' and e['name'] == 'len']
-            if c and same_pred(path.ret, ('bin', 'Ne', c[0]['ret'], S(lim))):
+            if c and says_pred(E, path, ('bin', 'Ne', c[0]['ret'], S(lim))):
                 R.ok(rule, '%s|len() != limit' % fn['path'])
             else:
                 R.fail(rule, [fn['path'], 'can_push'], 'can_push must be len() != stored limit (returns %s)'
